@@ -140,7 +140,7 @@ def obligations(tier, seed):
         obs.append(make("pcr-self:%s" % m, [("org", "H4"), ("ins", "SRC", m, "SRC,PCR"), ("ins", "", "NOP", "")], [(1, "SRC", None, 1)]))
         obs.append(make("pcr-next:%s" % m, [("org", "H4"), ("ins", "SRC", m, "NXT,PCR"), ("ins", "NXT", "NOP", "")], [(1, "NXT", None, 1)]))
     for m, opnd in [("LDA", "T,PCR"), ("JMP", "[T,PCR]"), ("LEAX", "T,PCR"), ("LBRA", "T"), ("LBSR", "T")]:
-        items = [("org", "H4"), ("ins", "T", "NOP", ""), ("gap", "n", 300), ("ins", "SRC", m, opnd), ("ins", "", "ORG", "$7000"), ("ins", "", "NOP", "")]
+        items = [("org", "H4"), ("ins", "T", "NOP", ""), ("gap", "n", 300), ("ins", "SRC", m, opnd), ("ins", "", "ORG", "$FFF0"), ("ins", "", "NOP", "")]
         obs.append(make("then-org:%s:%s" % (m, "ind" if "[" in opnd else "dir"), items, [(3, "T", None, 1)], False))
     pcr_ops = ["LDA", "LEAX", "LDY", "STX", "JSR", "CMPD", "LEAS", "CLR"] if full else ["LDA", "LEAX", "LDY"]
     for m in pcr_ops:
